@@ -117,6 +117,12 @@ CLAIMS["C05"] = dict(
     note="Proved: calls against signatures. Oracle only: definitions/returns/initialisers (covered with nullability by C06's matrix), the constraint builder and unifier. Over-rejections by inference are a recorded known finding.",
     technique="Lean 4 proof over call-conformance model + verdict correspondence with single-fault mutants",
     design="§5 C05")
+CLAIMS["C04"] = dict(
+    text="Lean theorems over the REGENERATED table of operator methods of the primitive stubs (check/resource/primitive/*.py) against a specification of CPython's operators by type tag: stubs_sound_partial (for every row outside five listed exceptions, for every runtime tag the declared operand type admits under Int <: Float <: Complex, the Python operator is defined and its result is admitted by the declared result type), exceptions_are_unsound (each exception is proved unsound, none is a blanket exemption), int_float_arithmetic_sound; the NameError half is theorem C09.no_undefined_read. "
+         "The specification pyOp is exercised against CPython, and the property decided end to end, by executing under CPython every accepted program of an operator matrix over Int/Float/Str/Bool, generated programs and their single-literal type-changing mutants: no TypeError, AttributeError, NameError or UnboundLocalError.",
+    note="Proved (finite regenerated table, decide): operator stubs of the primitives. Execution oracle only: methods/fields of user classes, collections, generics, first-use inference (the TypeConf model of DESIGN §4 is not built). Known unsound rows are recorded findings with their runtime message as trigger.",
+    technique="Lean 4 proof over regenerated stub table vs CPython operator spec + execution oracle with type-changing mutants",
+    design="§5 C04")
 NOT_YET = {}
 ALL = ["C%02d" % i for i in range(1, 21)]
 
